@@ -117,19 +117,58 @@ func exposeAlertsReadOnlyRule(o *Ob) {
 	}
 	o.Checks++
 	o.Passed++
-	// the hidden end time: a zero store into the copy, only for unresolved alerts, and for all of them
+	// the hidden end time: a zero stored into the copy, only for unresolved alerts, and for all of them.  The test may
+	// be made on the alert or on its copy, and the stored value may be "zero or the own end time" chosen by that test.
+	resolvedRe := `\(\*model\.Alert\)\.Resolved\((p0\[i\](\.Alert)?|&\w+:model\.Alert)\)|\(\*am/alert\.Alert\)\.Resolved\(p0\[i\]\)`
+	unresolved := LRe(resolvedRe, false)
 	var hides []ssa.Instruction
 	for _, st := range e.StoresToField(fn, "github.com/prometheus/common/model.Alert", "EndsAt") {
-		if e.X(fn, st.Val) == "zero:time.Time" {
-			hides = append(hides, st)
-			base := st.Addr.(*ssa.FieldAddr).X
-			_, fresh := base.(*ssa.Alloc)
-			o.Check(fresh, "expose-hide-copy", "the end time must be hidden in the copy, is hidden in "+e.X(fn, base), st)
-			o.Guarded(st, "expose-hide-guard", "hiding the end time", LRe(`\(\*model\.Alert\)\.Resolved\(p0\[i\](\.Alert)?\)|\(\*am/alert\.Alert\)\.Resolved\(p0\[i\]\)`, false))
+		alts := AltsOf(st.Val)
+		isHide := false
+		for _, a := range alts {
+			if e.X(fn, a.V) == "zero:time.Time" {
+				isHide = true
+			}
+		}
+		if !isHide {
+			continue
+		}
+		hides = append(hides, st)
+		base := st.Addr.(*ssa.FieldAddr).X
+		_, fresh := base.(*ssa.Alloc)
+		o.Check(fresh, "expose-hide-copy", "the end time must be hidden in the copy, is hidden in "+e.X(fn, base), st)
+		for _, a := range alts {
+			v := e.X(fn, a.V)
+			switch {
+			case v == "zero:time.Time" && len(alts) == 1:
+				o.Guarded(st, "expose-hide-guard", "hiding the end time", unresolved)
+			case v == "zero:time.Time":
+				o.Check(e.AltUnder(a, unresolved), "expose-hide-guard", "the end time can be hidden for an alert that is resolved", st)
+			case strings.HasSuffix(v, ".EndsAt"):
+				o.Check(e.AltUnder(a, unresolved.Neg()), "expose-hide-forced", "an unresolved alert can be exposed with its end time", st)
+			default:
+				o.Fail("expose-end", "an exposed alert's end time must be its own or hidden, is "+clip(v), st)
+			}
 		}
 	}
 	// one copy per alert, made in the iteration
 	var app ssa.Instruction
+	checkCopy := func(v ssa.Value, at ssa.Instruction) {
+		al, isA := v.(*ssa.Alloc)
+		if !o.Check(isA, "expose-copy", "each exposed alert must be a copy of its own, is "+e.X(fn, v), at) {
+			return
+		}
+		l := e.LoopOf(at)
+		o.Check(l != nil && l.Blocks[al.Block().Index], "expose-copy-shared", "all exposed alerts share one copy declared outside the loop", at)
+		n := 0
+		for _, r := range *al.Referrers() {
+			if st, ok := r.(*ssa.Store); ok && st.Addr == ssa.Value(al) {
+				n++
+				o.Check(regexpMatch(`p0\[i\](\.Alert)?`, e.X(fn, st.Val)), "expose-copy-of", "the copy must be of the alert of the iteration, is of "+e.X(fn, st.Val), st)
+			}
+		}
+		o.Check(n == 1, "expose-copy-init", "the copy is not initialised from the alert", at)
+	}
 	for _, ret := range (&Walk{Fn: fn}).FromEntry().Returns() {
 		_, parts := e.AppendParts(ret.Results[0])
 		for _, p := range parts {
@@ -137,18 +176,23 @@ func exposeAlertsReadOnlyRule(o *Ob) {
 				continue
 			}
 			app = p.Call
-			al, isA := p.V.(*ssa.Alloc)
-			if o.Check(isA, "expose-copy", "each exposed alert must be a copy of its own, is "+e.X(fn, p.V), p.Call) {
-				l := e.LoopOf(p.Call)
-				o.Check(l != nil && l.Blocks[al.Block().Index], "expose-copy-shared", "all exposed alerts share one copy declared outside the loop", p.Call)
-				n := 0
-				for _, r := range *al.Referrers() {
-					if st, ok := r.(*ssa.Store); ok && st.Addr == ssa.Value(al) {
-						n++
-						o.Check(regexpMatch(`p0\[i\](\.Alert)?`, e.X(fn, st.Val)), "expose-copy-of", "the copy must be of the alert of the iteration, is of "+e.X(fn, st.Val), st)
+			checkCopy(p.V, p.Call)
+		}
+		if app == nil {
+			// filled by index: res[i] = &v
+			rx := e.X(fn, ret.Results[0])
+			for _, in := range AllInstrs(fn) {
+				if st, ok := in.(*ssa.Store); ok {
+					if ia, ok := st.Addr.(*ssa.IndexAddr); ok && e.X(fn, ia.X) == rx {
+						app = st
+						o.Check(strings.HasSuffix(e.X(fn, st.Addr), "[i]"), "expose-slot", "each alert must be put into its own slot", st)
+						checkCopy(st.Val, st)
 					}
 				}
-				o.Check(n == 1, "expose-copy-init", "the copy is not initialised from the alert", p.Call)
+			}
+			if app != nil {
+				ms, isMk := ret.Results[0].(*ssa.MakeSlice)
+				o.Check(isMk && e.X(fn, ms.Len) == "len(p0)", "expose-size", "the result must have one slot per alert", app)
 			}
 		}
 	}
@@ -156,7 +200,7 @@ func exposeAlertsReadOnlyRule(o *Ob) {
 		if l := e.LoopOf(app); o.Check(l != nil, "expose-loop", "alerts must be exposed in a loop", app) {
 			o.Check(e.CoversAll(l, "p0") && len(e.EarlyExits(l)) == 0 && !loopBackWithout(o, l, IsInstr(app), nil), "expose-all", "an alert can be left out", app)
 			if len(hides) > 0 {
-				o.Check(!loopBackWithout(o, l, IsInstr(hides...), e.CutContradicting(LRe(`\(\*model\.Alert\)\.Resolved\(p0\[i\](\.Alert)?\)|\(\*am/alert\.Alert\)\.Resolved\(p0\[i\]\)`, false))), "expose-hide-forced", "an unresolved alert can be exposed with its end time", app)
+				o.Check(!loopBackWithout(o, l, IsInstr(hides...), e.CutContradicting(unresolved)), "expose-hide-forced", "an unresolved alert can be exposed with its end time", app)
 			}
 		}
 	}
